@@ -306,6 +306,16 @@ pub(crate) fn validate_subscribe_packet_outbound(packet: &SubscribePacket) -> Gn
         }
     }
 
+    // static topic filter rules; what depends on the server (wildcard and shared subscription availability) is checked
+    // by the internal validator at send time
+    for subscription in &packet.subscriptions {
+        if !is_valid_topic_filter(&subscription.topic_filter, Some(subscription.no_local)) {
+            let message = "validate_subscribe_packet_outbound - invalid topic filter";
+            error!("{}", message);
+            return Err(GneissError::new_packet_validation(PacketType::Subscribe, message));
+        }
+    }
+
     validate_user_properties(&packet.user_properties, PacketType::Subscribe, "validate_subscribe_packet_outbound")?;
 
     Ok(())
